@@ -7,7 +7,10 @@
     dataclass schemas (gen/C20_records.v, harness/translate/c20_records.py); lookup-name enums: generated
     exhaustive theorems; LLSD flavours: SchemaBase.to_llsd/from_llsd per-node dict round-trip (Asset/Llsd.v,
     gen/C20_llsd.v).
-(C) whole InventoryModels incl. the AIS overrides, wearables: IMPL-LEVEL ORACLE on the real
+(B8) whole InventoryModels (node store, add(), to_writer/from_reader, to_llsd/from_llsd of both flavours incl. the AIS
+    overrides, __eq__): PROOF (Asset/InvModel.v, InvModelProofs.v) at the live class table (gen/C20_invmodel.v) +
+    extracted model vs the real InventoryModel (harness/translate/c20_invmodel.py).
+(C) wearables and the object-level view of inventory models: IMPL-LEVEL ORACLE on the real
     code only (harness/translate/c20_codecs.py), no theorem is claimed for them.
 (D) animations: PROOF at the raw level (Asset/Anim.v, AnimProofs.v: parse(write a) = a for every well-formed a, both
     versions, exact consumption, every wf clause refuted when dropped) + extracted parse_anim/write_anim vs the real
@@ -28,7 +31,7 @@ from harness.common.framework import CorrResult, VERIF
 
 PROP_ID = "C20"
 COQ_PROPS = "theories/Props/C20.v"
-COQ_EXTRA = ["gen/C20_gen.v", "gen/C20_schema.v", "gen/C20_records.v", "gen/C20_llsd.v", "gen/C20_mesh.v"]
+COQ_EXTRA = ["gen/C20_gen.v", "gen/C20_schema.v", "gen/C20_records.v", "gen/C20_llsd.v", "gen/C20_mesh.v", "gen/C20_invmodel.v"]
 EXTRACT = ("theories/Extract/ExC20.v", "c20_driver.ml")
 EXTRACT_Z = True
 TRUSTED = [
@@ -55,18 +58,42 @@ TRUSTED = [
     "upper case); SchemaDate is modelled on POSIX seconds (calendar.timegm/utcfromtimestamp inverse on naive whole-second "
     "datetimes in range is assumed); embedded LLSD (SchemaLLSD) is carried as its XML text (llsd.format_xml/parse_xml inverse "
     "assumed); InventoryNodeBase._obj_from_dict's `type == \"-1\"` skip (never true after deserialisation) is not modelled; "
-    "InventoryModel (the set of nodes, add(), duplicate ids) is not modelled - the theorem is per node with an arbitrary tail",
+    "whole InventoryModels: see (B8)",
     "(2) lookup-name enums: the to/from tables in gen/C20_records.v are obtained by CALLING to_lookup_name on every member and "
     "from_lookup_name on every name produced; the theorem is exhaustive over the members with the exception list "
     "(FolderType 26, known finding) explicit and itself proved to fail; from_lookup_name accepts further spellings (raw member "
     "names, any case) that are not in the tables",
     "(3) LLSD flavours: SchemaBase.to_llsd/from_llsd with generated per-class/per-flavour key tables and per-kind value "
     "conversions is modelled and its per-node dict round-trip proved (obj_dict keyed by LLSD key instead of field.name: a "
-    "bijection checked by the translator); the AIS overrides InventoryCategory.to_llsd/from_llsd (type dropped/re-added) and "
-    "InventoryItem.to_llsd/from_llsd (agent_id, link items) and InventoryModel.from_llsd/to_llsd are NOT modelled (oracle (C)); "
+    "bijection checked by the translator); the AIS overrides and InventoryModel.from_llsd/to_llsd: see (B8); "
     "LLSD wire serialisation (XML/binary/notation) is out of scope (C12)",
-    "(C) NOT PROVED, implementation-level oracle only: whole InventoryModels through legacy text / legacy LLSD / AIS LLSD (incl. "
-    "the AIS overrides), Wearables, and - at the level of the Python objects, i.e. including the float/quantiser layer and the "
+    "(B8) whole InventoryModels, modelled by hand (Asset/InvModel.v) on top of the per-node layers: the node store as the "
+    "insertion-ordered list of (dict key, node) with add() (KeyError on a key already present, root = last added container whose "
+    "parent_id == UUID.ZERO), ordered_nodes (containers first, each group in dict order), to_writer/from_reader (outer "
+    "_yield_schema_tokens loop: blank/unparsable/'{'/unknown-key lines skipped, a '}' at block level ENDS the loop, a known header "
+    "hands the reader to Cls.from_reader; explicit fuel = number of lines + 1, proved irrelevant), to_llsd/from_llsd for BOTH flavours "
+    "as the code has them (a flat list of per-node dicts, class chosen by the first of INVENTORY_TYPES whose id key - cat_id / "
+    "category_id, obj_id, item_id - is in the dict; dicts without one only warn), the hand-written AIS overrides "
+    "(InventoryCategory: 'type' popped / re-added as CATEGORY; InventoryItem: agent_id = permissions.owner_id, links: linked_id <- "
+    "asset_id with permissions/sale_info dropped on write and re-created on read) as dict operations on insertion-ordered "
+    "association lists, and __eq__ as equality of the SETS of nodes (dataclass equality = same class and structurally equal "
+    "fields; on embedded metadata the model compares the XML text, which is finer than Python's dict equality). A node is (class "
+    "index, field values in dataclasses.fields order); each format's field order is a generated permutation. The class table "
+    "(names, container-ness, field orders, id keys, AssetType.LINK/CATEGORY, the permissions/sale_info a link gets back) is "
+    "regenerated from the live classes on every run (gen/C20_invmodel.v, wf_table = true by vm_compute, theorems instantiated). "
+    "PROVED for every well-formed table and every model: C20_model_text_roundtrip, C20_model_llsd_roundtrip (legacy), "
+    "C20_model_ais_roundtrip, each with the resulting node order, dict keys and root; the only model-level hypothesis is "
+    "pairwise distinct node ids (automatic for models built with add(): C20_model_built_by_add; refuted without it: KeyError), "
+    "per node the per-record domain of the flavour, and for AIS: categories of type CATEGORY, link items with a target and exactly the "
+    "permissions/sale_info that from_llsd re-creates (each refuted when dropped and replayed on the real code by the suite's "
+    "explicit cases); C20_model_text_blocks (any sequence of well-formed blocks in any order with skippable lines in between is "
+    "read as add() of the nodes in text order), C20_model_text_stop (nothing after a block-level '}' is read), model_eq is an "
+    "equivalence and decided by model_eqb. TIED: 'whole InventoryModels' suite. NOT in InventoryModel and therefore not "
+    "modelled: a nested categories/items/links AIS document and '_embedded' - they exist only in client/inventory_manager.py's "
+    "reader (process_aisv3_response, upsert), which has no writer to round-trip with; update()/upsert()/unlink(), the "
+    "model back-reference (weakref) and children/parent lookups are not modelled",
+    "(C) NOT PROVED, implementation-level oracle only: Wearables, the object-level view of whole InventoryModels (datetime / "
+    "metadata objects rather than their POSIX seconds / XML text: the (B8) theorems are about the typed record level), and - at the level of the Python objects, i.e. including the float/quantiser layer and the "
     "segment contents - llanim Animations (both versions) and mesh LLMeshSerializer round-trips are checked by running the real "
     "code on generated values (harness/translate/c20_codecs.py); zlib, numpy, llsd (binary/XML) are exercised, not modelled",
     "(D) animations, modelled by hand (Asset/Anim.v): the spec tree of llanim.Animation/Joint/RotKeyframe/PosKeyframe/Constraint as "
@@ -76,8 +103,9 @@ TRUSTED = [
     "IntEnum non-strict = identity on the wire integer). RAW LEVEL: floats are their 32-bit patterns, quantised keyframe numbers "
     "their wire integers, a str is its UTF-8 bytes (utf8_valid models the strict decoder; str <-> valid UTF-8 being a bijection is "
     "assumed of CPython's codec). PROVED: C20_anim_roundtrip for all wf_anim values with exact consumption, wf_anim decidable, every "
-    "clause refuted when dropped (C20_anim_wf_refuted, C20_anim_too_long_refused), the byte-count shortcut of the count loops is "
-    "faithful (C20_anim_count_guard). TIED: 'animation' suite (both directions, accept/reject alike on truncated/mutated input). "
+    "clause refuted when dropped (C20_anim_wf_refuted, C20_anim_too_long_refused) and none excludes a parseable value "
+    "(C20_anim_parse_wf: every parse result of a byte string < 2^31 bytes is in wf_anim; C20_anim_reparse: parse-serialise-parse "
+    "is the identity on values), the byte-count shortcut of the count loops is faithful (C20_anim_count_guard). TIED: 'animation' suite (both directions, accept/reject alike on truncated/mutated input). "
     "NOT covered at this level (C10 / oracle (C)): struct 'f' float<->double conversion incl. signalling NaNs, QuantizedTime for "
     "durations outside (0,inf) (duration 0: every time collapses to 0), Vector3U16 quantisation, PackedQuat's recomputed W, values "
     "off the quantisation grid",
@@ -88,7 +116,8 @@ TRUSTED = [
     "skip, zlib.error vs other exceptions, dict assignment, include_raw_segments). ORACLES = premises of the theorems, answered by "
     "the real functions in the 'mesh container' suite: binary LLSD header codec (law dec(enc h ++ rest) = (h, rest); C12 proves it "
     "for its LLSD model), zip_llsd/unzip_llsd + SEGMENT_TEMPLATES (law inflate k (deflate k s) = s), dict keys distinct. PROVED: "
-    "C20_mesh_order, C20_mesh_slices, C20_mesh_roundtrip(_general). parse_segment_contents=False is the same model with a "
+    "C20_mesh_order, C20_mesh_slices, C20_mesh_roundtrip(_general), C20_mesh_fixed_point (default flags; with "
+    "allow_invalid_segments only the layout theorems apply). parse_segment_contents=False is the same model with a "
     "different inflate oracle; the contents of the segments are not modelled",
 ]
 
@@ -453,6 +482,13 @@ Proof. intros turbo payload l st Hl Hr. exact (xfer_done_iff turbo live_max_chun
     nl = cr.emit_llsd(os.path.join(VERIF, "coq", "gen", "C20_llsd.v"))
     rec_obls.append({"name": "gen/C20_llsd.v: %d LLSD key tables (5 classes x legacy/ais, from cls._get_fields_dict(llsd_flavor)) satisfy "
                              "wf_keys and llsd_roundtrip is instantiated at each" % nl, "detail": "key renaming read from the live code"})
+    from harness.translate import c20_invmodel as ci
+    inf = ci.emit(os.path.join(VERIF, "coq", "gen", "C20_invmodel.v"))
+    rec_obls.append({"name": "gen/C20_invmodel.v: the live class table (%s; field orders of text/legacy/ais, id keys, AIS override "
+                             "constants LINK=%d CATEGORY=%d) satisfies wf_table and the whole-model theorems are instantiated at it"
+                             % ("/".join(inf["classes"]), inf["link"], inf["cat"]),
+                     "detail": "INVENTORY_TYPES order, dataclasses.fields, _get_fields_dict(llsd_flavor), ID_ATTR(_AIS); override constants "
+                               "obtained by running InventoryItem/InventoryCategory.from_llsd(.., 'ais') on probes"})
     from harness.translate import c20_mesh as cm
     nk_mesh = cm.emit(os.path.join(VERIF, "coq", "gen", "C20_mesh.v"))
     rec_obls.append({"name": "gen/C20_mesh.v: the model's known_segments equals the live LLMeshSerializer.KNOWN_SEGMENTS (%d names)" % nk_mesh,
@@ -827,7 +863,8 @@ def correspond_llsd(ctx):
 CODEC_KINDS = ("inventory", "enum", "wearable", "anim", "mesh")
 # cases of the raw-level animation / mesh container suites: the real code's observation is compared with the model's
 # observation stored in the case (so a replay needs no driver)
-MODEL_VS_CODE_KINDS = ("anim-parse", "anim-write", "utf8", "mesh-layout", "mesh-parse", "mesh-sort")
+INV_MODEL_KINDS = ("inv-text-write", "inv-text-read", "inv-llsd-write", "inv-llsd-read", "inv-eq", "inv-add")
+MODEL_VS_CODE_KINDS = ("anim-parse", "anim-write", "utf8", "mesh-layout", "mesh-parse", "mesh-sort") + INV_MODEL_KINDS
 
 
 def correspond(ctx):
@@ -843,6 +880,20 @@ def correspond(ctx):
     from harness.translate import c20_mesh as cm
     results.append(ca.correspond(ctx, CorrResult))
     results.append(cm.correspond(ctx, CorrResult))
+    from harness.translate import c20_invmodel as ci
+    results.append(ci.correspond(ctx, CorrResult))
+    ctx.notes.append("whole InventoryModels: proved at the typed record level for all three flavours (C20_model_text_roundtrip / "
+                     "_llsd_roundtrip / _ais_roundtrip with node order, keys and root; _text_blocks, _text_stop, _built_by_add, "
+                     "model_eq equivalence; every hypothesis refuted when dropped) and tied to the real InventoryModel by the 'whole "
+                     "InventoryModels' suite (serialisations compared exactly, parsed-back node lists, mutated inputs accept/reject "
+                     "alike, __eq__, add()); InventoryModel has no nested AIS document - that reader lives in "
+                     "client/inventory_manager.py and has no writer")
+    ctx.notes.append("animations: proved at the raw level (C20_anim_roundtrip/_parse_wf/_reparse/_wf_refuted/_count_guard) and tied both "
+                     "ways to llanim.Animation; the float/quantiser layer (struct 'f', QuantizedTime for the root duration, Vector3U16, "
+                     "PackedQuat W) is compared only where C10 proves it exact and otherwise stays with the object-level oracle suite")
+    ctx.notes.append("mesh: the container (segment order, offset/size table, slicing, parse of the written file, second generation) is "
+                     "proved under the header-codec and zlib/template oracle laws and tied to LLMeshSerializer with the real functions as "
+                     "oracles; segment contents (LOD arrays, weights, skin, convex hulls) stay with the object-level oracle suite")
     return results
 
 
@@ -892,6 +943,9 @@ def replay(ctx, case):
     if kind in ("mesh-layout", "mesh-parse", "mesh-sort"):
         from harness.translate import c20_mesh as cm
         return cm.replay_case(case)
+    if kind in INV_MODEL_KINDS:
+        from harness.translate import c20_invmodel as ci
+        return ci.replay_case(case)
     if kind == "record-text":
         import io
         from harness.translate import c20_records as cr
